@@ -9,7 +9,7 @@
    backend contract as hypotheses of a closed Section, so every theorem is universally quantified over conforming backends. *)
 From Coq Require Import String.
 From Coq Require Import ZArith List Bool.
-From LasV Require Import Lib.Base Lib.Layout Gen.GenHeaderLayout Gen.GenFormatBits Gen.GenDims Gen.GenC14 Model.Las.
+From LasV Require Import Lib.Base Lib.Layout Gen.GenHeaderLayout Gen.GenFormatBits Gen.GenDims Gen.GenC14 Model.Las Model.LasSpec.
 Import ListNotations.
 Open Scope list_scope.
 Open Scope Z_scope.
@@ -316,3 +316,73 @@ Section Backend.
       end
     end.
 End Backend.
+
+(* ------------------------------------------------------------------------------------ *)
+(* 4. a backend as one object, and the contract it has to honour                         *)
+(* ------------------------------------------------------------------------------------ *)
+Record backend := mkB {
+  b_lzdata : Z -> Z -> list Z;
+  b_cst : Type; b_new : list Z -> b_cst; b_feed : b_cst -> list (list Z) -> b_cst; b_done : b_cst -> list Z;
+  b_aopen : bool -> list Z -> list Z -> result b_cst;
+  b_dst : Type; b_dopen : bool -> bool -> list Z -> list Z -> result b_dst;
+  b_read : b_dst -> Z -> result (b_dst * list (list Z)); b_seek : b_dst -> Z -> result b_dst;
+  b_rest : b_dst -> result (list Z)
+}.
+
+Definition B_enc (B : backend) := enc (b_cst B) (b_new B) (b_feed B) (b_done B).
+Definition B_lzd (B : backend) := lzd (b_lzdata B).
+Definition B_file_of ap (B : backend) := laz_file_of ap (b_lzdata B) (b_cst B) (b_new B) (b_feed B) (b_done B).
+Definition B_final_hdr ap (B : backend) := laz_final_hdr ap (b_lzdata B) (b_cst B) (b_new B) (b_feed B) (b_done B).
+Definition B_session ap (B : backend) := lz_session ap (b_lzdata B) (b_cst B) (b_new B) (b_feed B) (b_done B).
+Definition B_source (B : backend) := laz_source (b_dst B) (b_dopen B).
+Definition B_read (B : backend) := read_laz (b_dst B) (b_dopen B) (b_read B).
+Definition B_read_ns (B : backend) := read_laz_ns (b_dst B) (b_dopen B) (b_read B) (b_rest B).
+Definition B_pstep (B : backend) := laz_pstep (b_dst B) (b_read B) (b_seek B).
+Definition B_append ap (B : backend) := lz_arun ap (b_cst B) (b_feed B) (b_done B) (b_aopen B).
+
+(* the backend contract: there are a record length `isz` and an invariant `dpos` ("the decompressor s, opened on
+   the (non-)seekable stream of recs for record d followed by tail, stands at record c") such that ... *)
+Definition conforming (B : backend) : Prop :=
+  exists (isz : list Z -> Z) (dpos : bool -> list Z -> list (list Z) -> list Z -> b_dst B -> Z -> Prop),
+  (* the record created for (format, extra bytes) describes records of that length *)
+  (forall fmt n std, std_size fmt = Some std -> 0 <= n -> isz (b_lzdata B fmt n) = std + n)
+  (* chunked feeding = one-shot feeding (done() included: the destination ends where the stream ends) *)
+  /\ (forall d chunks, recs_ok (isz d) (concat chunks) = true -> Forall (fun c => c <> []) chunks ->
+        b_done B (fold_left (b_feed B) chunks (b_new B d)) = B_enc B d (concat chunks))
+  (* a decompressor that constructs on a finished stream stands at record 0, whatever follows the stream *)
+  /\ (forall p sk d recs tail s, recs_ok (isz d) recs = true ->
+        b_dopen B p sk d (B_enc B d recs ++ tail) = Ok s -> dpos sk d recs tail s 0)
+  (* the serial variant always constructs, the parallel one at least on seekable sources *)
+  /\ (forall sk d recs tail, recs_ok (isz d) recs = true -> is_ok (b_dopen B false sk d (B_enc B d recs ++ tail)) = true)
+  /\ (forall d recs tail, recs_ok (isz d) recs = true -> is_ok (b_dopen B true true d (B_enc B d recs ++ tail)) = true)
+  (* dec n (enc rs) = rs, from any position, in any number of calls *)
+  /\ (forall sk d recs tail s c n, dpos sk d recs tail s c -> 0 <= n -> c + n <= len recs ->
+        exists s', b_read B s n = Ok (s', firstn (Z.to_nat n) (skipn (Z.to_nat c) recs)) /\ dpos sk d recs tail s' (c + n))
+  (* seek i then read yields skipn i *)
+  /\ (forall sk d recs tail s c i, dpos sk d recs tail s c -> 0 <= i <= len recs ->
+        exists s', b_seek B s i = Ok s' /\ dpos sk d recs tail s' i)
+  (* non-seekable source, all points consumed: the chunk table is skipped and the rest of the source obtained *)
+  /\ (forall d recs tail s, dpos false d recs tail s (len recs) -> b_rest B s = Ok tail)
+  (* the appender continues a finished stream *)
+  /\ (forall p d A tail, recs_ok (isz d) A = true ->
+        exists s, b_aopen B p d (B_enc B d A ++ tail) = Ok s
+          /\ forall Bs, recs_ok (isz d) (concat Bs) = true -> Forall (fun c => c <> []) Bs ->
+               b_done B (fold_left (b_feed B) Bs s) = B_enc B d (A ++ concat Bs)).
+
+(* what is asked of the data handed to the compressing writer, on top of wf_las (which speaks about the
+   uncompressed file of the same data): the final compressed header is well-formed too (in particular the LasZip
+   record fits a VLR), the caller's list holds no LasZip record, the header carries the plain format id *)
+Definition wf_laz ap (B : backend) (h : assoc) (vl : list vlr) (fmt : Z) (recs : list (list Z)) (evl : list vlr) : Prop :=
+  exists h', B_final_hdr ap B h vl fmt recs evl = Ok h'
+    /\ wf_header h' (writer_vlrs vl true (B_lzd B h fmt)) = true
+    /\ count_lz vl = 0 /\ aint h "point_format_id" = fmt /\ 0 <= fmt < 64.
+
+(* the header fields that legitimately differ between the two files *)
+Definition layout_field (n : string) : bool :=
+  String.eqb "offset_to_point_data" n || String.eqb "header_size" n || String.eqb "number_of_vlrs" n
+  || String.eqb "point_format_id" n || String.eqb "start_of_first_evlr" n.
+
+(* which backend selections can serve a source: any non-empty one when it is seekable; one that holds the
+   serial variant when it is not (the parallel one may refuse: the loop then falls back) *)
+Definition backends_ok (backends : list bool) (seekable : bool) : Prop :=
+  if seekable then backends <> [] else In false backends.
